@@ -133,6 +133,23 @@ pub fn run(ctx: &Ctx) {
         let exact = to == StdoutTo::File;
         if !r.ok() || toks.join(" ") != want || (exact && out != format!("{want}\n")) { ctx.violation(format!("{P}:new:{shape}:wrong-phrase"), format!("printed {:?}; the phrase of the entropy the source returned is {:?}", trunc(&out, 200), trunc(&want, 200)), replay) }
     });
+    // the AMBIENT environment of a real session: variables every desktop, container or CI job exports (locale and gettext
+    // settings, terminal geometry, paths, home) and variables named like the tool's own options - none of them is an input of
+    // `new` that the property knows, so generation must work, with the scripted entropy, whatever they hold
+    let ambient: Vec<(&str, &str)> = vec![("LANGUAGE", "en_US:en"), ("LANGUAGE", "de_DE:de"), ("LANGUAGE", ""), ("LANG", "en_US.UTF-8"), ("LC_ALL", "C"), ("LC_ALL", "tr_TR.UTF-8"), ("TERM", "xterm-256color"), ("COLUMNS", "80"), ("LINES", "24"), ("HOME", "/root"), ("USER", "root"), ("SHELL", "/bin/bash"),
+        ("PATH", "/usr/bin:/bin"), ("PWD", "/"), ("TMPDIR", "/tmp"), ("LENGTH", "80"), ("THREADS", "4"), ("PREFIX", "/usr/local"), ("VANITY_PREFIX", ""), ("NO_COLOR", "1"), ("RUST_LOG", "debug"), ("RUST_BACKTRACE", "1"), ("CI", "true"), ("DEBUG", "1"), ("PASSWORD", "hunter2"), ("ACCOUNT_INDEX", "3"), ("HD_PATH", "m/0"), ("MNEMONIC", "x")];
+    ctx.sweep("ambient-environment", "`new -n L` (12 and 21 words) with one ambient variable of a real session set (locale / gettext, terminal, paths, home, CI flags, names like the tool's own options, the account variables of the other commands): the phrase of the scripted entropy", (ambient.len() * 2) as u64, |i| {
+        let (k, v) = ambient[i as usize / 2]; let len = [12usize, 21][i as usize % 2]; let e = len * 4 / 3; let pattern = filler_bytes(ctx.seed, 0xC12D + i, 64);
+        let cmd = Cmd::new(&["new", "-n", &len.to_string()]).env(k, v);
+        let (r, reqs, full) = run_shimmed(&cmd, Build::Release, &Mode::Cycle { pattern, fail_at: None, once: false }, "ambient-environment", i);
+        let shape = format!("new,ambient={k}"); let replay = full.replay("ambient-environment", i, Build::Release);
+        ctx.sample("ambient-environment", || serde_json::json!({"command": trunc(&full.shown(), 300)}));
+        if r.crashed() { ctx.eval(format!("{shape}:{}", r.crash_kind())); ctx.panic_violation(format!("{P}:new:{shape}:{}", r.crash_kind()), r.describe(), replay); return; }
+        ctx.eval(format!("{shape}:{}", if r.ok() { "phrase" } else { "refused" }));
+        let handed: Vec<u8> = reqs.iter().filter(|q| q.ok).flat_map(|q| q.bytes.clone()).collect();
+        let want = if handed.len() >= e { bip39::entropy_to_phrase(&handed[..e]) } else { String::new() };
+        if !r.ok() || r.out() != format!("{want}\n") { ctx.violation(format!("{P}:new:ambient-environment,{k}:wrong-or-refused"), format!("with {k}={v:?} in the environment `new -n {len}` gave {}; the phrase of the entropy the source returned is {:?}", r.describe(), trunc(&want, 120)), replay) }
+    });
     kth_candidate(ctx, P);
 }
 
